@@ -48,6 +48,7 @@ import (
 	"github.com/nuts-foundation/nuts-node/vcr/credential"
 	"github.com/nuts-foundation/nuts-node/vcr/signature"
 	"github.com/nuts-foundation/nuts-node/vcr/signature/proof"
+	"github.com/nuts-foundation/nuts-node/vcr/types"
 	"github.com/nuts-foundation/nuts-node/vdr"
 	"github.com/nuts-foundation/nuts-node/vdr/didnuts/didstore"
 	"github.com/nuts-foundation/nuts-node/vdr/resolver"
@@ -59,9 +60,8 @@ import (
 )
 
 const (
-	typeVC  = "application/vc+json"
-	typeRev = "application/vc+json;type=revocation"
-	typeDID = "application/did+json"
+	typeVC  = types.VcDocumentType           // application/vc+json
+	typeRev = types.RevocationLDDocumentType // application/ld+json;type=revocation
 )
 
 // ------------------------------------------------------------------------------------------ fake network
@@ -284,6 +284,32 @@ func (f *fakeNet) jobs() []job {
 	return out
 }
 
+// clearJobs empties the job shelves (start of a new script on the shared node: jobs of earlier scripts must not be
+// replayed into this one).
+func (f *fakeNet) clearJobs() {
+	for _, name := range []string{"vcr_vcs", "vcr_revocations"} {
+		shelf := "_" + name + "_jobs"
+		var keys []stoabs.Key
+		_ = f.kv.ReadShelf(context.Background(), shelf, func(r stoabs.Reader) error {
+			return r.Iterate(func(k stoabs.Key, _ []byte) error {
+				keys = append(keys, stoabs.BytesKey(append([]byte(nil), k.Bytes()...)))
+				return nil
+			}, stoabs.BytesKey{})
+		})
+		if len(keys) == 0 {
+			continue
+		}
+		_ = f.kv.WriteShelf(context.Background(), shelf, func(w stoabs.Writer) error {
+			for _, k := range keys {
+				if err := w.Delete(k); err != nil {
+					return err
+				}
+			}
+			return nil
+		})
+	}
+}
+
 func (f *fakeNet) takeCalls() []call {
 	f.mu.Lock()
 	defer f.mu.Unlock()
@@ -359,7 +385,7 @@ type node struct {
 	lc     uint32
 }
 
-func newNode(t *testing.T, name string) *node {
+func newNode(t *testing.T, name string, ldm jsonld.JSONLD) *node {
 	n := &node{t: t, name: name}
 	n.dir = filepath.Join(t.TempDir(), name)
 	if err := os.MkdirAll(n.dir, 0o755); err != nil {
@@ -368,7 +394,7 @@ func newNode(t *testing.T, name string) *node {
 	n.keys = nutsCrypto.NewMemoryCryptoInstance(t)
 	n.dids = didstore.NewTestStore(t)
 	n.events = events.NewTestManager(t)
-	n.ld = jsonld.NewTestJSONLDManager(t)
+	n.ld = ldm
 	n.net = newFakeNet(n.dir)
 	n.fl = &faults{shelf: map[string]int{}, hits: map[string]int{}}
 	n.start()
@@ -379,21 +405,21 @@ func newNode(t *testing.T, name string) *node {
 func (n *node) start() {
 	t := n.t
 	if err := n.net.open(); err != nil {
-		t.Fatal(err)
+		panic(err)
 	}
 	n.engine = gatedEngine{storage.NewTestStorageEngineInDir(t, n.dir), n.fl}
 	ctrl := gomock.NewController(t)
 	n.vdr = vdr.NewVDR(n.keys, n.net, n.dids, n.events, n.engine, pki.NewMockValidator(ctrl))
 	if err := n.vdr.Configure(core.TestServerConfig()); err != nil {
-		t.Fatal(err)
+		panic(err)
 	}
 	n.vcr = vcr.NewVCRInstance(n.keys, n.vdr, n.net, n.ld, n.events, n.engine, pki.New())
 	cfg := core.TestServerConfig(func(c *core.ServerConfig) { c.Datadir = n.dir })
 	if err := n.vcr.(core.Configurable).Configure(cfg); err != nil {
-		t.Fatal(err)
+		panic(err)
 	}
 	if err := n.vcr.(core.Runnable).Start(); err != nil {
-		t.Fatal(err)
+		panic(err)
 	}
 }
 
@@ -452,7 +478,7 @@ func (w *world) buildDoc(p *party, spec docSpec) did.Document {
 	case "":
 	case "own":
 		doc.Service = append(doc.Service, did.Service{ID: ssi.MustParseURI(p.id.String() + "#nc"), Type: transport.NutsCommServiceType,
-			ServiceEndpoint: "grpc://" + p.name + ".x07.example:5555"})
+			ServiceEndpoint: "grpc://" + strings.ToLower(p.name) + ".x07verif.nl:5555"})
 	default:
 		doc.Service = append(doc.Service, did.Service{ID: ssi.MustParseURI(p.id.String() + "#nc"), Type: transport.NutsCommServiceType,
 			ServiceEndpoint: spec.nutsComm + "/serviceEndpoint?type=" + transport.NutsCommServiceType})
@@ -464,11 +490,12 @@ func (w *world) buildDoc(p *party, spec docSpec) did.Document {
 }
 
 // putDoc adds a version of a DID document to a node's did store (what the VDR ambassador does after its checks).
-func (n *node) putDoc(doc did.Document, at time.Time) hash.SHA256Hash {
+// The reference depends on the document and its time only, so that the same version has the same reference on every node.
+func (n *node) putDoc(doc did.Document, at time.Time, prevs []hash.SHA256Hash) hash.SHA256Hash {
 	raw, _ := json.Marshal(doc)
 	n.lc++
-	sum := sha256.Sum256([]byte(fmt.Sprintf("%s|%d|%s", doc.ID.String(), n.lc, raw)))
-	tx := didstore.Transaction{Clock: n.lc, PayloadHash: hash.SHA256Sum(raw), Ref: hash.SHA256Hash(sum), SigningTime: at}
+	sum := sha256.Sum256([]byte(fmt.Sprintf("%s|%d|%s", doc.ID.String(), at.UnixNano(), raw)))
+	tx := didstore.Transaction{Clock: n.lc, PayloadHash: hash.SHA256Sum(raw), Ref: hash.SHA256Hash(sum), SigningTime: at, Previous: prevs}
 	if err := n.dids.Add(doc, tx); err != nil {
 		panic(err)
 	}
@@ -478,12 +505,19 @@ func (n *node) putDoc(doc did.Document, at time.Time) hash.SHA256Hash {
 type world struct {
 	t      *testing.T
 	NI, NR *node
+	ctx    *ctxServer
 }
 
 func newWorld(t *testing.T) *world {
 	w := &world{t: t}
-	w.NI = newNode(t, "NI")
-	w.NR = newNode(t, "NR")
+	w.ctx = newCtxServer()
+	t.Cleanup(w.ctx.srv.Close)
+	rl, err := receiverLD(w.ctx)
+	if err != nil {
+		t.Fatal(err)
+	}
+	w.NI = newNode(t, "NI", ldManager{penLoader{prefix: w.ctx.srv.URL, next: jsonld.NewTestJSONLDManager(t).DocumentLoader()}})
+	w.NR = newNode(t, "NR", rl)
 	return w
 }
 
